@@ -125,15 +125,16 @@ CHECKS = {
     ),
     "C07": dict(
         modules=["AggkitModel.Properties.C07"],
-        scenarios=[dict(name="bridgestore"), dict(name="tree"), dict(name="l1infostore")],
+        scenarios=[dict(name="bridgestore"), dict(name="tree"), dict(name="l1infostore"), dict(name="gersync")],
         generated=[],
         leanchecker=True,
         level_text="Proved in Lean 4: C07_atomic — for every block and EVERY index of the failing write statement (and for duplicate keys, deposit gaps, refusal while halted): a ProcessBlock that does not return success leaves blocks, event rows, exit-tree roots and nodes exactly as before; "
                    "C07_retry_clean_roots — a block attempt rolled back after any number of its leaves, incl. a fault inside AddLeaf's store statements, followed by anything, serves exactly the roots of a run in which the attempt never happened (corollary of the history induction runHistory_inv; "
                    "with C08_appendonly also the same leaves/proofs); C07_inconsistent_means_halted + C14_refuses_while_halted — the only error the driver does not retry leaves the processor halted, so no later block is recorded while an earlier one is missing. "
-                   "Tie: real bridge processor with SQL-trigger faults at a chosen write statement (bridgestore) and real tree package with statement-level faults incl. reads (tree); retry compared with a fault-free twin. "
+                   "Tie: real bridge processor with SQL-trigger faults at a chosen write statement (bridgestore) and real tree package with statement-level faults incl. reads (tree); retry compared with a fault-free twin; "
+                   "the L1 info tree store (l1infostore: `blk!` — one-shot SQL-trigger fault at a chosen write statement of block / leaf / batch rows and of both trees' roots and nodes, retry, twin and contract references) and the injected-GER store (gersync: `poll!`) the same way: the model's faulted attempt (`processBlockF`, `poll!` = `poll`) changes nothing, the real stores must agree. "
                    "Genuine defects found by this check and fixed in /repo: F1 (rollback left the frontier polluted), F14 (initCache advanced lastIndex before the cache was rebuilt), F2 (transient AddLeaf error reported as inconsistency without halting).",
-        level_note="Trusted: Lean kernel; H.Inj; model/code correspondence (generator-bounded). Process kill = rollback of the open transaction + restart (SQLite atomic commit trusted). The driver's retry loop is argued from the two theorems, not modelled as a goroutine. L1-info and GER stores not yet covered.",
+        level_note="Trusted: Lean kernel; H.Inj; model/code correspondence (generator-bounded). Process kill = rollback of the open transaction + restart (SQLite atomic commit trusted). The driver's retry loop is argued from the two theorems, not modelled as a goroutine. For the L1 info and injected-GER stores atomicity under a fault is the model's DEFINITION of a faulted attempt (state unchanged), checked against the real stores by the correspondence run, not a theorem about their statement sequences.",
         rule="bridgestore: 35% of blocks get 1-2 faulted attempts at a uniformly chosen write statement (block insert, root/rht inserts inside AddLeaf, row inserts, legacy deletes) before a clean retry, some with a restart in between; "
              "tree: statement-level faults incl. SELECTs in initCache; distinct non-trivial = distinct twin comparisons",
         assumptions=["H.Inj", "WFhistory"],
@@ -178,6 +179,7 @@ CHECKS = {
         level_text="Proved in Lean 4 by induction over loop iterations, for every chain, chunk size (0 included), start block and EVERY admissible sequence of (tip, finalized) observations — tip jumps of any size, finalized below/at/above the tip or not moving, failing finalized lookups: "
                    "C05_exactly_once — the blocks handed to the driver are strictly increasing (so each at most once), each carries exactly the watched logs of its own block in log order (empty markers only for blocks without watched logs), and every block with watched logs between the start and the loop position has been handed over; "
                    "C05_no_gap — at the moment any block is handed over, all earlier blocks with watched logs already were (the last-processed marker cannot pass an unstored event block, the driver processing the channel in order); "
+                   "C05_grouping — the grouping loop of getEventsByBlockRangeWithRetry over the raw log list (ascending by block, log order inside a block) yields exactly the event blocks of the range, each with all of its own logs in log order and none of another block's (so `eventsIn`, which the loop model uses, is what the code computes); "
                    "C05_retry_transparent — whatever the header queries answer (hash mismatches between eth_getLogs and the header query), when the range fetch returns blocks they are exactly the event blocks of the range, and it returns as soon as one of its 6 attempts sees no mismatch. "
                    "Tie: the real sync.EVMDownloader.Download loop incl. GetEventsByBlockRange / GetLogs (topic + Removed filtering, header cross-check with scripted foreign headers / not-found / transient errors) against a scripted client serving the same chain and observation script for a fixed number of iterations (verif hook on the loop's iteration limit), output compared with the model; "
                    "the real EVMDriver.Sync (scenario reorgsync): after every start, restart (incl. restarts at which the first reads of the last-processed marker fail) and rewind the driver must start its downloader right after the last stored block.",
@@ -226,7 +228,7 @@ CHECKS = {
         level_text="Proved in Lean 4 by induction over EVERY history (new blocks, reorgs at any depth above the finalized block with shorter or longer new forks, successive reorgs, finality moving at any time, two subscribers progressing at any relative speed, detection passes, restarts, a stop of the node while a syncer is rewinding — at any moment, any length): "
                    "C06_tracked_or_final — every block a syncer has processed is still tracked by the detector with the hash it was processed with, or was delivered as finalized and is on the chain; C06_detected — after a detection pass that could fetch the headers it needed no block that the chain has replaced remains in the syncer's store (it was rewound to at or before the first replaced block it had processed), and the rewind point is exactly the first tracked block whose hash differs; "
                    "C06_no_spurious_rewind — if nothing it processed was replaced, the pass leaves the store alone; C06_stopped_during_reorg — a stop while a syncer rewinds keeps the stale blocks tracked, so the next pass after the restart rewinds again; C06_restart; C06_converges — once the chain has stopped changing, one pass plus syncing to the tip leaves the store equal to the canonical chain (blocks 1…tip, each the chain's block). "
-                   "PARTIAL: the schedule is sequential (an operation completes before the next starts); the window between the driver's acknowledgement and the detector's removal of the tracked range is outside the model — on the real code that window loses a tracked block (KNOWN-FINDING F5, replayed on every run by the directed `race` op: the detector's database is kept busy for 150 ms after the rewind). "
+                   "PARTIAL: the schedule is sequential (an operation completes before the next starts); the window between the driver's acknowledgement and the detector's removal of the tracked range is where the full statement FAILS: the model splits the pass into its two halves (detectNotify, detectFinish; detectSub_is_notify_then_finish proves that back to back they are the sequential pass in every state the theorems speak about) and C06_race_false proves, by evaluation, the witness — a block of the new fork processed between the halves is stored, not final and no longer tracked, and its later replacement goes unseen by a complete pass; the same schedule is replayed on the real code on every run (KNOWN-FINDING F5, directed `race` op: the detector's database is kept busy for 150 ms after the rewind). "
                    "Tie: reorgsync scenario — the real ReorgDetector (SQLite tracked blocks, one pass per op via the verif hook, real reload at restart), two real EVMDrivers in their own goroutines (real select loop, handleNewBlock, handleReorg) over two real bridge processors, a scripted downloader that hands out the block the chain has at that moment, a scripted chain client; stores and tracked lists after every op are compared with the model; monitors: rewound iff something processed was replaced, to at or before the first replaced block; no replaced block left after a pass; convergence to the chain at the end of every world.",
         level_note="Trusted: Lean kernel; model/code correspondence (generator-bounded); the downloader is scripted (the real EVMDownloader is C05's subject); sequential schedule; a detection pass that hits the reorg_event key within the same wall-clock second is retried once by the harness, as the periodic check would at its next tick.",
         rule="seeded worlds (10 quick / 60 thorough) of 40/80 ops: 25% new blocks, 30% a subscriber syncs 1-3 blocks, 11% detection pass, 4% detection pass during which the node is stopped while a syncer rewinds (then restart), 12% reorg at a random depth above the finalized block with a new fork usually at least as long (15% shorter), 10% finality moves, 8% restart; at the end the chain grows by 4 blocks and convergence is required; distinct non-trivial = distinct (reorg depth, new fork length) classes",
